@@ -16,6 +16,7 @@ unspecified on both sides (Findings/C06.lean `C06_return_upper_bits_unspecified`
 import ChibiVerif.Spec.C06RetSpec
 import ChibiVerif.Lemmas.C06RetLemmas
 import ChibiVerif.Lemmas.C06RetFpLemmas
+import ChibiVerif.Lemmas.C06RetStructLemmas
 import ChibiVerif.Lemmas.C06ArgSpecLemmas
 import ChibiVerif.Props.C01
 import ChibiVerif.Props.C02
@@ -73,6 +74,28 @@ theorem C06_return_struct_path (u : Bool) (sz al : Nat) (ms : CallConv.Members) 
     · simp only [h, if_true]
       cases CallConv.retPiecesCallee (.agg u sz al ms) <;> simp [Except.map]
     · simp [h]
+
+/-- **C06 (a struct / union of at most 16 bytes travels byte for byte).**  For every structure or union type of at most 16 bytes
+    on which cc1 reaches no `assert` of the ladder (`aggSizeOk`: fails only for packed structs, known finding
+    C06-packed-unaligned-param), whatever its member tree: the loads of `copy_struct_reg` in the callee (`movss` / `movsd` of 4 or 8
+    bytes, byte loads shifted into %rax / %rdx) read **every byte of the returned object exactly once and no byte outside it**, and
+    the stores of `copy_ret_buffer` in the caller write every byte of the return buffer exactly once and none outside.  (Before
+    /repo 7826748 the callee read bytes 8..15 of a 12-byte all-float struct: Findings/C06.lean.)  The text the model prints — and the
+    asm-text tie compares with `chibicc -S` — is by definition the rendering of these operations. -/
+theorem C06_struct_return_bytes (u : Bool) (sz al : Nat) (ms : CallConv.Members)
+    (hok : CallConv.aggSizeOk (.agg u sz al ms) = true) (h16 : sz ≤ 16) :
+    let t : ATy := .agg u sz al ms
+    (∀ i, i ∈ (CallConv.copyStructRegOps t).flatMap CallConv.RetOp.bytes ↔ i < sz) ∧
+    ((CallConv.copyStructRegOps t).flatMap CallConv.RetOp.bytes).length = sz ∧
+    (∀ i, i ∈ (CallConv.copyRetBufferOps t).flatMap CallConv.RetOp.bytes ↔ i < sz) ∧
+    ((CallConv.copyRetBufferOps t).flatMap CallConv.RetOp.bytes).length = sz ∧
+    CallConv.copyStructRegLines t = (CallConv.copyStructRegOps t).flatMap (CallConv.RetOp.lines 0) ∧
+    ∀ off, CallConv.copyRetBufferLines t off = (CallConv.copyRetBufferOps t).flatMap (CallConv.RetOp.lines off) :=
+  ⟨CallConv.copyStructReg_bytes u sz al ms hok h16, CallConv.copyStructReg_length u sz al ms hok h16,
+   CallConv.copyRetBuffer_bytes u sz al ms hok h16, CallConv.copyRetBuffer_length u sz al ms hok h16, rfl, fun _ => rfl⟩
+
+example : CallConv.aggSizeOk (.agg false 12 4 (.cons 0 .flt (.cons 4 .flt (.cons 8 .flt .nil)))) = true ∧
+    CallConv.aggSizeOk (.agg false 11 1 (.cons 0 (.arr (.int 1 false false) 11) .nil)) = true := by decide
 
 /-! ## integer-class values: callee, epilogue, caller -/
 
